@@ -706,6 +706,60 @@ def _moves(job, ctx):
                 exc = attempt(lambda: schema(ad={k: bad}))
             ctx.case(("anykey", repr(k), route), "anykey:%s:%s" % (route, type(exc).__name__ if exc else "accepted"), True)
             judge(ctx, job, key, "C15|anykey|%s|%s|%s" % (kind, type(k).__name__, route), "typed dict entry with key %r via %s" % (k, route), exc, "ad[%s]" % (k,), None)
+    # a list of configurations grows by several items in one step and the rejected one is not the first of the batch
+    for lst, targets in (("items", ("c", "inner.e", "d[k]")), ("ts", ("c",))):
+        for how in ("extend", "iadd", "add-assign", "extend-generator"):      # (slice insertion: which index an item "has" before it is stored is not defined)
+            for target in targets:
+                for badpos in (1, 2):
+                    key = ["batch", lst, how, target, badpos]
+                    if only is not None and only != key:
+                        continue
+                    schema, ok = build(kind)
+                    okv = V.dec(ok)
+                    if isinstance(okv, bytes):
+                        import base64
+                        okv = base64.b64encode(okv).decode()
+                    bad = V.dec(bads[0])
+                    if not jsonlike(bads[0]):
+                        continue
+                    cfg = schema()
+                    tree = valid_tree(okv)
+                    try:
+                        cfg.load_tree(tree)
+                    except Exception:  # noqa
+                        continue
+                    def good_item():
+                        return {"c": okv, "r": "x", "inner": {"e": okv}, "d": {"k": okv}} if lst == "items" else {"c": okv}
+                    bad_item = good_item()
+                    if target == "c":
+                        bad_item["c"] = bad
+                    elif target == "inner.e":
+                        bad_item["inner"]["e"] = bad
+                    else:
+                        bad_item["d"]["k"] = bad
+                    batch = [good_item() for _ in range(badpos)] + [bad_item, good_item()]
+                    cur = getattr(cfg, lst)
+                    n0 = len(cur)
+                    ctx.transitions += 1
+                    if how == "extend":
+                        exc = attempt(lambda: cur.extend(batch))
+                        idx = n0 + badpos
+                    elif how == "extend-generator":
+                        exc = attempt(lambda: cur.extend(x for x in batch))
+                        idx = n0 + badpos
+                    elif how == "iadd":
+                        exc = attempt(lambda: cur.__iadd__(batch))
+                        idx = n0 + badpos
+                    elif how == "add-assign":
+                        exc = attempt(lambda: setattr(cfg, lst, cur + batch))
+                        idx = n0 + badpos
+                    else:
+                        exc = attempt(lambda: cur.__setitem__(slice(1, 1), batch))
+                        idx = 1 + badpos
+                    ctx.case(tuple(map(str, key)), "batch:%s:%s" % (how, type(exc).__name__ if exc else "accepted"), True)
+                    judge(ctx, job, key, "C15|batch|%s|%s|%s|%s" % (kind, lst, how, target.split("[")[0]),
+                          "%s grows by %d items through %s, item %d of the batch has a bad %s" % (lst, len(batch), how, badpos, target), exc,
+                          "%s[%d].%s" % (lst, idx, target), "Inner E" if target == "inner.e" else None)
     # a typed dict / list value of one configuration is handed to another position that uses the same field object;
     # entries rejected later on the receiving side must be reported under the receiver's path
     for src, dst, want in (("items[0]", "items[1]", "items[1].d[k]"), ("items[1]", "backups[0]", "backups[0].d[k]"), ("proto", "items[0]", "items[0].d[k]"),
